@@ -336,7 +336,7 @@ func Mix(r *core.Rng, p MixParams) *prog.Program {
 		if r.Bool(0.5) {
 			nops = r.Range(1, p.MaxOps)
 		}
-		oneBucket := ""
+		oneBucket, haveBucket := "", false
 		for j := 0; j < nops; j++ {
 			d := ds[r.Intn(len(ds))]
 			write := true
@@ -345,8 +345,8 @@ func Mix(r *core.Rng, p MixParams) *prog.Program {
 			}
 			op, nature, bs := g.mixOp(d, write, p, kp)
 			if p.OneBucketPerTx {
-				if oneBucket == "" {
-					oneBucket = op.B
+				if !haveBucket {
+					oneBucket, haveBucket = op.B, true
 				}
 				if op.B != oneBucket || (op.B2 != "" && op.B2 != oneBucket) {
 					continue
